@@ -47,13 +47,18 @@ CHECKS['C06'] = dict(
    text='Mixed. Proved (ast->z3 VCs on the ten real verify_* methods): the verdict is a function of column and constraint only, '
         'so it is identical with and without detection (including the allowed_values shortcut, via the pigeonhole axiom), and '
         'the detection hook is called exactly when detecting and the verdict is a failure on an existing field, once, with the '
-        "constraint's own value/precision/epsilon. Bounded (runtime contracts on real pandas code, labelled): per-record flags "
+        "constraint's own value/precision/epsilon; each of the ten detect_*_constraint methods of the real pandas detector (and the two fuzzy column comparisons) "
+        'is proved, over a stub of the pandas column operations, to write exactly one flag column, named after its constraint kind, holding the mask the '
+        'property describes (every record false when the type cannot satisfy the kind; records within the bound under the documented precision; string lengths; '
+        'non-null records for max_nulls; members of duplicated groups, nulls unflagged; records holding a violating value). '
+        "Bounded (runtime contracts on real pandas code, labelled): per-record flags "
         'equal the documented meaning per kind, nulls flagged only by type/max_nulls, n_failures = false flags, counts partition '
         'the rows, output frame/file holds exactly the failing records (identified by index label, also on re-indexed frames), stale/absent output files, input frame unchanged. '
         'base.verify is proved to call the detected-records writer iff something failed and to remove a stale output file otherwise.',
-   note='Trusted: A-calc, A-card, A-pigeonhole, FP-REAL, pyvc encoding, z3/cvc5. The record-level sentences are decided only on the '
+   note='Trusted: A-calc, A-card, A-pigeonhole, FP-REAL, A-pandas (element-wise operations as mask descriptions; detection_field assumed), pyvc encoding, z3/cvc5. '
+        'The record-level sentences on real pandas values are decided only on the '
         'enumerated frames (<=3/4 rows per family pool + seeded columns) x one option variant per case.',
-   technique='contract-based deductive verification of the verifier/hook protocol + bounded runtime contracts for record-level semantics',
+   technique='contract-based deductive verification of the verifier/hook protocol and of the pandas record-level detectors (stubbed pandas) + bounded runtime contracts for record-level semantics on real frames',
    design_ref='DESIGN.md 5 C06')
 
 CHECKS['C10'] = dict(
@@ -80,17 +85,20 @@ CHECKS['C19'] = dict(
 
 CHECKS['C04'] = dict(
    category='other',
-   text='Mixed. Proved on the real checkfiles.py: check_for_permutation_failures reports no failure exactly when the differing actual lines are a rearrangement (same multiset) of the expected ones (<= 3 cases, symbolic contents); '
-        'wrong_number reports at least one difference whenever it is reached with a non-empty side (texts whose line counts differ after removal never pass; lists of any length); '
-        'normalize_function selects exactly the requested stripping; can_ignore holds '
-        'iff the reference line contains an ignore-substring or the lines are pattern-equivalent (loop invariant over the substring '
-        'list; check_patterns uninterpreted). The verdict of check_strings and of the three entry points is decided by the bounded '
-        'layer (labelled): an independent statement of the comparison rule (removal, stripping, substring/pattern excuses by dynamic '
-        'programming, permutation allowance) evaluated on reference texts <= 3 lines x near-miss and compound actuals x 28 option sets, judging '
-        'only cases the documents fix (must-pass and must-fail separately).',
-   note='Trusted: Python re, str methods, splitlines. check_strings itself (250 lines of list surgery with regex callbacks) is not under '
-        'a deductive contract: bounded only. The oracle leaves pattern cases open when strict and permissive readings differ.',
-   technique='contract-based deductive verification of the comparison helpers + bounded runtime contracts against an independent oracle',
+   text='Mixed. Proved on the real checkfiles.py: the verdict of check_strings for texts of up to N lines a side (one view per shape; N = 2 quick, 3 thorough) '
+        'with symbolic line contents, symbolic ignore-substrings, remove-substrings, stripping flags and permutation allowance, with and without a caller-supplied '
+        'preprocess function: it passes whenever the property\'s sentence demands a pass and fails whenever it demands a failure (two clauses; what the sentence '
+        'leaves open - rearranged lines compared before or after stripping - is left open); normalize_function and wrong_content are executed as part of that '
+        'body. Helpers under their own contracts: wrong_content returns the number of differing pairs can_ignore does not excuse (any number of lines; loop '
+        'invariant over a partial count); check_for_permutation_failures reports no failure exactly when the differing actual lines are a rearrangement of the '
+        'expected ones (<= 3 cases); wrong_number reports at least one difference whenever reached with a non-empty side (lists of any length); '
+        'normalize_function selects exactly the requested stripping; can_ignore holds iff the reference line contains an ignore-substring or the lines are '
+        'pattern-equivalent (loop invariant; check_patterns uninterpreted). Longer texts, the pattern rule itself and the three entry points are decided by the '
+        'bounded layer (labelled): an independent statement of the comparison rule evaluated on reference texts <= 3 lines x near-miss and compound actuals x '
+        '28 option sets, judging only cases the documents fix.',
+   note='Trusted: Python re, str methods (strip family as functions of the string), splitlines. check_patterns is an uninterpreted predicate in the proofs; '
+        'reconstruct and add_failures are assumed to only report. The line-count bound of the check_strings views is stated in the evidence.',
+   technique='contract-based deductive verification of check_strings (per-shape views) and its helpers + bounded runtime contracts against an independent oracle',
    design_ref='DESIGN.md 5 C04')
 CHECKS['C15'] = dict(
    category='other',
@@ -99,7 +107,8 @@ CHECKS['C15'] = dict(
         'write_file is proved to write exactly the file it is given; add_failures is proved to write only under tmp_dir, nothing when '
         'temporaries are not requested, and exactly one raw file per side lacking a path plus the post-processed pair. The message/file '
         'contents sentences (named files exist, raw actual holds the actual, post-processed pair differs on unexcused lines, passes write '
-        'nothing) are decided by the bounded layer (labelled) with directory snapshots.',
+        'nothing) are decided by the bounded layer (labelled) with directory snapshots; check_strings is proved (1x1 and 2x2 line views) to call '
+        'add_failures exactly when it reports a failure, so a passing comparison reports and writes nothing.',
    note='Trusted: A-fs effect table, A-path (separator-free tails, join under), compare_with/get_encoding write nothing, z3. reconstruct() '
         'is bounded only.',
    technique='contract-based deductive verification (loop invariant, ghost write-set frames) + bounded runtime contracts',
